@@ -797,4 +797,158 @@ Proof.
       by (rewrite app_length; cbn [length]; unfold e; lia).
     eapply ST_lists; [exact H4| |]; cbn [map]; rewrite ?map_app; cbn [map app ll_toks]; repeat (progress (cbn [app]; rewrite <- ?app_assoc)); reflexivity.
 Qed.
+
+(* ---------------- a whole program: `begin` ss `end` `.` Eof *)
+Theorem prog_run ss f s0 mc0 last0 lv a :
+  ST s0 0 [] [] [] mc0 last0 [] lv a ->
+  nth_error T 0 = Some tBegin -> toks_at 1 (render ss ++ [tEnd]) ->
+  nth_error T (S (S (length (render ss)))) = Some tDot ->
+  nth_error T (S (S (S (length (render ss))))) = Some RTT_Eof ->
+  n = S (S (S (S (length (render ss))))) ->
+  8 + need ss <= f ->
+  let e := S (length (render ss)) in
+  exists mc' last',
+    ST (RUN f C_top s0) n
+       ([0] :: map ll_toks (expected 1 1 ss) ++ [[e; S e]; [S (S e)]]) []
+       (mkLM None 0%N LLT_Unknown :: map meta_of (expected 1 1 ss) ++ [mkLM None 0%N LLT_Unknown; mkLM None 0%N LLT_Eof])
+       mc' last' [] lv a.
+Proof.
+  intros H Ht0 Htb HtD HtE Hn Hf e.
+  destruct f as [|[|[|[|[|[|[|f]]]]]]]; try lia.
+  assert (H0n : 0 < n) by lia.
+  rewrite (run_S _ C_top _ (ST_err _ _ _ _ _ _ _ _ _ _ H)). unfold arm_top. cbv zeta.
+  (* the top-level loop: one iteration *)
+  rewrite (stmt_list_unfold _ _ _ _ _ (ST_err _ _ _ _ _ _ _ _ _ _ H)). cbv zeta.
+  change (ctx CT_TopLevelStatement true P_top_semicolon (ParserGrammar.L 0)) with cTop.
+  rewrite (with_ctx_structures _ cTop s0 (ST_err _ _ _ _ _ _ _ _ _ _ H) eq_refl).
+  pose proof (finish_empty_ST _ _ _ _ _ _ _ _ _ H) as H0.
+  pose proof (push_ctx_ST cTop _ _ _ _ _ _ _ _ _ _ H0) as H1.
+  rewrite (run_S _ C_structures _ (ST_err _ _ _ _ _ _ _ _ _ _ H1)).
+  unfold arm_structures. rewrite (ST_cur_tt _ _ _ _ _ _ _ _ _ _ _ H1 Ht0). cbn [tBegin].
+  assert (E1 : ending_ctx pass (push_ctx pass cTop (finish_logical_line pass s0)) = None).
+  { unfold ending_ctx. rewrite (ST_ctx _ _ _ _ _ _ _ _ _ _ H1). cbn [ending_go cTop ctx c_pred c_opaque eval_pred].
+    rewrite (ST_cur_tt _ _ _ _ _ _ _ _ _ _ _ H1 Ht0). reflexivity. }
+  rewrite E1. cbn [sarm_of]. cbv delta [sa_begin stmt_block] beta.
+  pose proof (next_token_ST _ _ _ _ _ _ _ _ _ _ H1 H0n) as H2. cbn [app] in H2.
+  change (ctx (CT_StatementBlock BK_Begin) true P_end (ParserGrammar.L 1)) with cSB.
+  rewrite (run_S _ (C_stmt_block cSB SK_Normal) _ (ST_err _ _ _ _ _ _ _ _ _ _ H2)). unfold arm_stmt_block.
+  rewrite (with_ctx_stmt_list _ cSB _ _ (ST_err _ _ _ _ _ _ _ _ _ _ H2) eq_refl).
+  pose proof (finish_ST _ _ _ _ _ _ _ _ _ _ H2 ltac:(discriminate)) as H3.
+  cbn [first_parent plain_sum cTop ctx c_level ParserGrammar.L lm_type app length] in H3.
+  change (clamp_u16 (0 + 0)) with 0%N in H3.
+  pose proof (push_ctx_ST cSB _ _ _ _ _ _ _ _ _ _ H3) as H4.
+  destruct (stmts_run ss [(cTop, false)] eq_refl (S f) _ _ _ _ _ _ _ _ ltac:(lia) H4 Htb) as (mcb & lastb & flb & Tyb & H5).
+  change (C_stmt_list (CT_Statement SK_Normal) false P_semicolon) with stmt_list_call.
+  cbn [plain_sum cTop ctx c_level ParserGrammar.L] in H5. change (1 + (0 + 0))%Z with 1%Z in H5.
+  pose proof (pop_ctx_ST _ _ _ _ _ _ _ _ _ _ _ H5) as H6.
+  change (1 + length (render ss)) with e in H6.
+  set (sB := pop_ctx pass (RUN (S f) stmt_list_call (push_ctx pass cSB (finish_logical_line pass (next_token pass (push_ctx pass cTop (finish_logical_line pass s0))))))) in *.
+  assert (He : nth_error T e = Some tEnd).
+  { specialize (Htb (length (render ss)) tEnd). rewrite nth_error_app2, Nat.sub_diag in Htb by lia. exact (Htb eq_refl). }
+  assert (Hen : e < n) by (unfold e; lia). assert (Hen1 : S e < n) by (unfold e; lia). assert (Hen2 : S (S e) < n) by (unfold e; lia).
+  rewrite (ST_cur_tt _ _ _ _ _ _ _ _ _ _ _ H6 He). cbn [tEnd o_kw_end].
+  pose proof (next_token_ST _ _ _ _ _ _ _ _ _ _ H6 Hen) as H7. cbn [app] in H7.
+  rewrite (ST_cur_tt _ _ _ _ _ _ _ _ _ _ _ H7 HtD). cbn [tDot o_dot].
+  pose proof (next_token_ST _ _ _ _ _ _ _ _ _ _ H7 Hen1) as H8. cbn [app] in H8.
+  pose proof (finish_ST _ _ _ _ _ _ _ _ _ _ H8 ltac:(discriminate)) as H9.
+  cbn [first_parent plain_sum cTop ctx c_level ParserGrammar.L] in H9. rewrite Tyb in H9.
+  change (clamp_u16 (0 + 0)) with 0%N in H9.
+  unfold s_loop.
+  rewrite (run_S _ C_structures _ (ST_err _ _ _ _ _ _ _ _ _ _ H9)).
+  unfold arm_structures. rewrite (ST_cur_tt _ _ _ _ _ _ _ _ _ _ _ H9 HtE).
+  pose proof (pop_ctx_ST _ _ _ _ _ _ _ _ _ _ _ H9) as H10.
+  pose proof (finish_empty_ST _ _ _ _ _ _ _ _ _ H10) as H11.
+  rewrite (take_separators_noop _ _ _ _ _ _ _ _ _ _ _ RTT_Eof H11 HtE) by discriminate.
+  rewrite (ST_cur_tt _ _ _ _ _ _ _ _ _ _ _ H11 HtE). rewrite orb_true_r.
+  (* the Eof line *)
+  pose proof (finish_empty_ST _ _ _ _ _ _ _ _ _ H11) as H12.
+  pose proof (next_token_ST _ _ _ _ _ _ _ _ _ _ H12 Hen2) as H13. cbn [app] in H13.
+  pose proof (set_line_type_ST LLT_Eof _ _ _ _ _ _ _ _ _ _ H13) as H14.
+  pose proof (finish_ST _ _ _ _ _ _ _ _ _ _ H14 ltac:(discriminate)) as H15.
+  cbn [first_parent plain_sum lm_type] in H15. change (clamp_u16 0) with 0%N in H15.
+  assert (Hn' : S (S (S e)) = n) by (unfold e; lia). rewrite Hn' in H15.
+  eexists _, _. eapply ST_lists.
+  - exact H15.
+  - cbn [app]. repeat (progress (cbn [app]; rewrite <- ?app_assoc)). reflexivity.
+  - cbn [app]. repeat (progress (cbn [app]; rewrite <- ?app_assoc)). reflexivity.
+Qed.
 End Frag.
+
+(* ================================================================== *)
+(* instantiation: T := render_prog ss *)
+Lemma render_plain ss : Forall plain (render ss).
+Proof.
+  induction ss as [|r IH|r IH|b IHb r IHr]; cbn [render]; repeat (constructor; [exact I|]); try assumption; try constructor.
+  apply Forall_app. split; [exact IHb|]. repeat (constructor; [exact I|]). exact IHr.
+Qed.
+Lemma render_prog_plain ss : Forall plain (render_prog ss).
+Proof.
+  unfold render_prog. constructor; [exact I|]. apply Forall_app. split; [apply render_plain|]. repeat (constructor; [exact I|]). constructor.
+Qed.
+Lemma render_prog_length ss : length (render_prog ss) = S (S (S (S (length (render ss))))).
+Proof. unfold render_prog. cbn [length]. rewrite app_length. cbn [length]. lia. Qed.
+
+Lemma rebuild_lines E : map (fun p => mkLine (lm_type (snd p)) (lm_level (snd p)) (lm_parent (snd p)) (fst p))
+                            (combine (map ll_toks E) (map meta_of E)) = E.
+Proof. induction E as [|l E IH]; [reflexivity|]. cbn. rewrite IH. destruct l; reflexivity. Qed.
+Lemma combine_app {A B} (l1 l1' : list A) (l2 l2' : list B) : length l1 = length l2 ->
+  combine (l1 ++ l1') (l2 ++ l2') = combine l1 l2 ++ combine l1' l2'.
+Proof. revert l2. induction l1 as [|a l1 IH]; intros [|b l2] H; cbn in *; try lia; [reflexivity|]. rewrite IH by lia. reflexivity. Qed.
+
+Lemma pass_lines_ST T s k Ls c M mc last cx lv a :
+  ST T s k Ls c M mc last cx lv a ->
+  pass_lines (seq 0 (length T)) s =
+  map (fun p => mkLine (lm_type (snd p)) (lm_level (snd p)) (lm_parent (snd p)) (fst p)) (combine Ls M)
+  ++ [mkLine (lm_type mc) (lm_level mc) (lm_parent mc) c].
+Proof.
+  intros (K & Mt & Ml & _). unfold pass_lines. rewrite K, Mt. cbn [k_lines].
+  rewrite combine_app by (symmetry; exact Ml). rewrite map_app. reflexivity.
+Qed.
+
+Lemma increasing_seq z m : increasing (seq z m).
+Proof.
+  revert z. induction m as [|m IH]; intros z; cbn; constructor; [apply IH|].
+  apply Forall_forall. intros x Hx. apply in_seq in Hx. lia.
+Qed.
+
+(* the pass of a program of the fragment: no error, consumed, exactly the expected lines (followed by
+   the empty line that is current at the end) *)
+Theorem fragment_parse_pass ss :
+  let T := render_prog ss in
+  let pass := seq 0 (length T) in
+  ps_err pass (parse_pass pass [] T []) = None /\ pidx pass (parse_pass pass [] T []) = length pass
+  /\ exists el, ll_toks el = [] /\ pass_lines pass (parse_pass pass [] T []) = expected_prog ss ++ [el].
+Proof.
+  intros T pass.
+  pose proof (render_prog_plain ss) as P. pose proof (render_prog_length ss) as Ln. fold T in P, Ln.
+  assert (H0 : ST T (ps_init pass T []) 0 [] [] [] lm0 0 [] (0%N, 0%N, 0%N) []).
+  { split; [reflexivity|]. split; [reflexivity|]. split; reflexivity. }
+  assert (Ht0 : nth_error T 0 = Some tBegin) by reflexivity.
+  assert (Htb : toks_at T 1 (render ss ++ [tEnd])).
+  { intros j t Hj. change (nth_error (render ss ++ [tEnd; tDot; RTT_Eof]) j = Some t).
+    replace (render ss ++ [tEnd; tDot; RTT_Eof]) with ((render ss ++ [tEnd]) ++ [tDot; RTT_Eof]) by (rewrite <- app_assoc; reflexivity).
+    rewrite nth_error_app1; [exact Hj|]. apply nth_error_Some. congruence. }
+  assert (HtD : nth_error T (S (S (length (render ss)))) = Some tDot).
+  { change (nth_error (render ss ++ [tEnd; tDot; RTT_Eof]) (S (length (render ss))) = Some tDot).
+    rewrite nth_error_app2 by lia. replace (S (length (render ss)) - length (render ss)) with 1 by lia. reflexivity. }
+  assert (HtE : nth_error T (S (S (S (length (render ss))))) = Some RTT_Eof).
+  { change (nth_error (render ss ++ [tEnd; tDot; RTT_Eof]) (S (S (length (render ss)))) = Some RTT_Eof).
+    rewrite nth_error_app2 by lia. replace (S (S (length (render ss))) - length (render ss)) with 2 by lia. reflexivity. }
+  assert (Hf : 8 + need ss <= run_fuel pass).
+  { unfold run_fuel, need, pass. rewrite seq_length, Ln. lia. }
+  unfold parse_pass. set (f := run_fuel pass) in *. clearbody f.
+  destruct (prog_run T P ss f _ _ _ _ _ H0 Ht0 Htb HtD HtE Ln Hf) as (mc' & last' & H).
+  fold pass in H. set (s := run pass [] f C_top (ps_init pass T [])) in *.
+  split; [exact (ST_err_none T _ _ _ _ _ _ _ _ _ _ H)|]. split.
+  - transitivity (length T); [exact (ST_pidx T _ _ _ _ _ _ _ _ _ _ H)|unfold pass; rewrite seq_length; reflexivity].
+  - exists (mkLine (lm_type mc') (lm_level mc') (lm_parent mc') []). split; [reflexivity|].
+    etransitivity; [exact (pass_lines_ST T _ _ _ _ _ _ _ _ _ _ H)|]. f_equal.
+    set (e := S (length (render ss))) in *.
+    assert (EL : [0] :: map ll_toks (expected 1 1 ss) ++ [[e; S e]; [S (S e)]] = map ll_toks (expected_prog ss)).
+    { unfold expected_prog. cbv zeta. cbn [map ll_toks]. rewrite map_app. cbn [map ll_toks].
+      change (1 + length (render ss)) with e. replace (e + 1) with (S e) by lia. replace (e + 2) with (S (S e)) by lia. reflexivity. }
+    assert (EM : mkLM None 0%N LLT_Unknown :: map meta_of (expected 1 1 ss) ++ [mkLM None 0%N LLT_Unknown; mkLM None 0%N LLT_Eof]
+                 = map meta_of (expected_prog ss)).
+    { unfold expected_prog. cbv zeta. cbn [map meta_of ll_parent ll_level ll_type]. rewrite map_app. reflexivity. }
+    rewrite EL, EM. apply rebuild_lines.
+Qed.
